@@ -91,6 +91,11 @@ class Gen:
             self.features.add("duplicate-name")          # two functions / methods of one file share a name
             return self.r.choice(self._fn_names)
         nm = f"{base}{self.uid}"
+        if base == "fn" and self.r.random() < 0.04:
+            # an identifier that is not in a Unicode normal form (a ligature, compatibility letters): the reported name is the
+            # token's text, not a normalised spelling of it (seeded change C05-12)
+            nm = self.r.choice(["\ufb01", "\u2460x"[1:] + "\u00b5", "\uff46\uff4e"]) + nm
+            self.features.add("non-normalised-identifier")
         if base == "fn":
             self.__dict__.setdefault("_fn_names", []).append(nm)
         return nm
@@ -275,7 +280,9 @@ class Gen:
             rt = self.r.choice(["number", "void", "Promise<void>", "string[]",
                                 "(x: number) => number", "(cb: (e: Err) => void, n: number) => void",
                                 "Promise<Map<string, Array<Record<string, number>>>>",
-                                "Map<string, Map<string, Array<Promise<Record<string, Array<number>>>>>>"])
+                                "Map<string, Map<string, Array<Promise<Record<string, Array<number>>>>>>",
+                                # more than 40 tokens between the ")" and the "{" (seeded change C01-11: a look-ahead window of 32)
+                                " | ".join(f"Alt{i}<string>" for i in range(14))])
             self.o.code(rt, own)
             self.features.add("return-type")
             if rt.startswith("("):
@@ -286,7 +293,8 @@ class Gen:
             self.o.ws(" ")
             if self.r.random() < 0.4:
                 self.o.code("throws java.io.IOException, java.lang.InterruptedException, "
-                            "java.util.concurrent.TimeoutException, Other", own)
+                            "java.util.concurrent.TimeoutException, Other"
+                            + "".join(f", pkg.sub.E{i}" for i in range(10)) * (self.r.random() < 0.5), own)    # half of them: > 60 tokens
                 self.features.add("long-throws")             # the brace lies more than 16 tokens after the ")"
             else:
                 self.o.code("throws IOException, Other", own)
